@@ -34,7 +34,9 @@ PosOf(file, i) == IF i = 1 THEN 0 ELSE PosOf(file, i - 1) + SizeOf(file[i - 1])
 FragBoxes(seg, nr, withEmsg) == (IF withEmsg THEN <<[k |-> "emsg", seg |-> seg, frag |-> nr]>> ELSE <<>>)
                                 \o <<[k |-> "moof", seg |-> seg, frag |-> nr], [k |-> "mdat", seg |-> seg, frag |-> nr]>>
 HasStyp(d) == d \in {"styp", "styp+sidx"}
-HasTopSidx(d) == d \in {"sidx", "styp+sidx"}
+HasTopSidx(d) == d \in {"sidx", "styp+sidx", "sidx+free"}
+\* "sidx+free": a free box between the top-level sidx and the first fragment - the index then has first_offset = size of that box (8.16.3)
+FirstOffset(p) == IF p.delim = "sidx+free" THEN 8 ELSE 0
 HasMfra(d) == d \in {"mfra", "mfra-noflag"}
 \* fps = frags per segment (sequence); first fragment number of segment s
 FirstFragNr(fps, s) == 1 + SumSeq(SubSeq(fps, 1, s - 1))
@@ -46,6 +48,7 @@ SegBoxes(p, s) ==
 MediaBoxes(p) == Flat([s \in 1 .. Len(p.fps) |-> SegBoxes(p, s)])
 FileOf(p) == <<[k |-> "ftyp"], [k |-> "moov", ntracks |-> p.ntracks]>>
              \o (IF HasTopSidx(p.delim) THEN <<[k |-> "sidx", seg |-> 0, nref |-> Len(p.fps), level |-> "file"]>> ELSE <<>>)
+             \o (IF p.delim = "sidx+free" THEN <<[k |-> "free", seg |-> 0]>> ELSE <<>>)
              \o MediaBoxes(p)
              \o (IF HasMfra(p.delim) THEN <<[k |-> "mfra", ntfra |-> p.ntracks]>> ELSE <<>>)
 
@@ -100,7 +103,7 @@ StartNeeded(p, file, st, i) ==
     LET segIdx == Len(st.segs)  pos == PosOf(file, i) IN
     CASE st.fsidx # <<>> ->
            LET sx == st.fsidx[1] IN
-           SidxHit([s \in 1 .. Len(p.fps) |-> SegSize(p, s)], PosOf(file, sx) + SizeOf(file[sx]), 0, segIdx, pos)
+           SidxHit([s \in 1 .. Len(p.fps) |-> SegSize(p, s)], PosOf(file, sx) + SizeOf(file[sx]) + FirstOffset(p), 0, segIdx, pos)
       [] p.flags = "ism" /\ HasMfra(p.delim) -> segIdx < Len(p.fps) /\ pos = TfraOffsets(p, file)[segIdx + 1]
       [] p.flags = "onmoof" -> ~(st.segs # <<>> /\ st.segs[Len(st.segs)].frags # <<>> /\ ~LastFragHasMoof(file, st))
       [] OTHER -> segIdx = 0
